@@ -537,8 +537,10 @@ func (e *vfC05Env) runAdmin(op vfC05Op, res *vfC05Result, mutating bool) {
 	}
 }
 
-// vfC05Watchdog is the bound after which a program that has not finished counts
-// as a stall (a program normally takes tens of milliseconds).
+// vfC05Watchdog is how long a program may go without completing a single query
+// or admin operation before it counts as a stall (an operation normally takes
+// well under a millisecond; a loaded machine slows programs down but does not
+// stop them).
 const vfC05Watchdog = 45 * time.Second
 
 // execute runs the program's goroutines concurrently and returns what failed.
@@ -546,7 +548,7 @@ func (e *vfC05Env) execute(p *vfC05Program) (res *vfC05Result) {
 	res = &vfC05Result{overlap: map[string]int{}}
 	var wg sync.WaitGroup
 	start := make(chan struct{})
-	var inflightQueries, adminRunning atomic.Int64
+	var inflightQueries, adminRunning, progress atomic.Int64
 	var overlapMu sync.Mutex
 
 	for _, ops := range p.DNS {
@@ -561,6 +563,7 @@ func (e *vfC05Env) execute(p *vfC05Program) (res *vfC05Result) {
 				inflightQueries.Add(1)
 				e.runQuery(op, res)
 				inflightQueries.Add(-1)
+				progress.Add(1)
 			}
 		}(ops)
 	}
@@ -580,6 +583,7 @@ func (e *vfC05Env) execute(p *vfC05Program) (res *vfC05Result) {
 				overlapMu.Unlock()
 			}
 			adminRunning.Add(-1)
+			progress.Add(1)
 		}
 	}
 	for _, ops := range p.Admin {
@@ -594,12 +598,10 @@ func (e *vfC05Env) execute(p *vfC05Program) (res *vfC05Result) {
 	done := make(chan struct{})
 	go func() { wg.Wait(); close(done) }()
 	close(start)
-	select {
-	case <-done:
-	case <-time.After(vfC05Watchdog):
+	if !vfkit.WaitProgress(done, &progress, vfC05Watchdog) {
 		buf := make([]byte, 1<<20)
 		n := runtime.Stack(buf, true)
-		res.fail("stall: the program did not finish within %s (deadlock?)\n%s", vfC05Watchdog, buf[:n])
+		res.fail("stall: no query or admin operation of the program completed for %s (deadlock?)\n%s", vfC05Watchdog, buf[:n])
 		res.stalled = true
 	}
 
